@@ -984,11 +984,11 @@ def sweep_members(ck):
 
 
 def sweep_offsets(ck, n, full):
-    if full or n <= 3000:
+    if full or n <= 1000:
         return list(range(n + 1))
-    offs = set(range(0, 200)) | set(range(n - 200, n + 1))
-    offs |= set(range(0, n, max(1, n // 250)))
-    offs |= set(ck.rng.randrange(n) for _ in range(300))
+    offs = set(range(0, 120)) | set(range(n - 120, n + 1))
+    offs |= set(range(0, n, max(1, n // 150)))
+    offs |= set(ck.rng.randrange(n) for _ in range(150))
     return sorted(offs)
 
 
